@@ -6,6 +6,8 @@ package syncer
 // stub output.
 
 import (
+	"github.com/mgtv-tech/redis-GunYu/pkg/redis/checkpoint"
+	"github.com/mgtv-tech/redis-GunYu/pkg/redis/client"
 	"bufio"
 	"bytes"
 	"context"
@@ -283,4 +285,58 @@ func VerifC06SyncMeta() {
 		verifAssert(locSp.Offset == cache.right && src.reqId == cache.runId, "C06.partial.psync-does-not-match-cache")
 		verifAssert(cache.runId == id1 || cache.runId == id2, "C06.partial.continues-foreign-history/cache-id")
 	}
+}
+
+
+// VerifC06Failover: the whole path of a (re)start after the source failed over, with the real output side:
+// the target holds the resume position (A, T) written while the tool followed the old master. The new master
+// reports [B, A] with switch offset S (its history equals A's below S only). Start-up does what
+// syncer.newOutput does - checkpoint maintenance with the source's ids (checkpoint.UpdateCheckpoint, the body of
+// syncer.updateCheckpoint), a RedisOutput under the current id - and then the real syncMeta (real StartPoint,
+// GetCheckpoint, SetRunId) against the PSYNC admission model, with an empty cache. If the tool had got further
+// than the new master when it was promoted (T >= S) its bytes S..T never existed in B's history: the only
+// correct outcome is a snapshot; otherwise a continuation must start exactly at T.
+func VerifC06Failover() {
+	idB, idA := "aa-current-id", "bb-previous-id"
+	src := &verifSource{replid: idB, replid2: idA}
+	src.secondOff = verifI64("secondOff")
+	src.masterOff = []int64{5000, 1 << 33}[verifChoose("masterOff", 2)]
+	src.rdbSize = 3
+	src.backlogOff = verifI64("backlogOff")
+	src.histLen = verifI64("histLen")
+	small := func(v int64) bool { return verifAnd(v >= 1, v < 1<<40) }
+	verifAssume(small(src.secondOff))
+	verifAssume(verifAnd(small(src.backlogOff), verifAnd(src.histLen >= 0, src.histLen < 1<<40)))
+	verifAssume(src.backlogOff+src.histLen == src.masterOff+1)
+	// the new master was promoted at S-1 and has only grown since
+	verifAssume(src.secondOff-1 <= src.masterOff)
+	T := verifI64("outOff")
+	verifAssume(small(T))
+
+	fake := verifNewFake()
+	verifAssert(checkpoint.SetCheckpoint(fake, &checkpoint.CheckpointInfo{Key: "cp", RunId: idA, Version: "v", Offset: T}) == nil, "C06.failover.setup")
+	fake.request("hset", []interface{}{config.CheckpointKeyHashKey, idA, "cp"}) // the index entry the previous start-up wrote
+	// start-up maintenance with the ids the source reports (syncer.newOutput -> updateCheckpoint)
+	verifAssert(checkpoint.UpdateCheckpoint(fake, "cp", []string{idB, idA}) == nil, "C06.failover.maintenance-error")
+	ro := verifNewOutput(false, 1, fake)
+	ro.cfg.RunId = idB
+	ro.newRedisConn = func(context.Context) (client.Redis, error) { return fake, nil }
+	cache := &verifCache{rdbLeft: -1}
+	ri := &RedisInput{inputAddr: "src", channel: cache, output: ro, logger: log.WithLogger("[verif] ")}
+	cli := redis.VerifNewStandalone(src)
+	isFull, _, _, outSp, err := ri.syncMeta(context.Background(), cli)
+	verifAssert(err == nil, "C06.failover.syncmeta-error")
+	if err != nil {
+		return
+	}
+	verifObserve("full", verifB2I(isFull))
+	diverged := T > src.secondOff-1
+	if verifConcBool(diverged) {
+		verifReach("c06.failover.tool-was-ahead")
+		verifAssert(isFull, "C06.failover.continues-in-diverged-history")
+	} else if !isFull {
+		verifReach("c06.failover.continued")
+		verifAssert(outSp.Offset == T, "C06.failover.reader-not-at-stored-position")
+	}
+	verifReach("c06.failover.done")
 }
